@@ -186,7 +186,10 @@ class Fn:
                 nm = re.sub(r"__\d+$", "", n_)
         if nm is not None and nm not in known and local > self.arg_count and not self.locals[local]["mut"]:
             ds = [d for d in self.defs(local)]
-            if len(ds) == 1 and ds[0][0] in ("assign", "call"):
+            if len(ds) > 1 and all(d[0] in ("assign", "call") for d in ds):
+                # `let x = if c { a } else { b };` - one assignment per branch of an immutable variable
+                res = True
+            elif len(ds) == 1 and ds[0][0] in ("assign", "call"):
                 if ds[0][0] == "call":
                     res = True
                 else:
@@ -570,8 +573,8 @@ MAX_DEPTH = 40
 CANON_BINOPS = {}
 CANON_VARS = {}
 INT_TYPES = ("u8", "u16", "u32", "u64", "u128", "usize", "i8", "i16", "i32", "i64", "i128", "isize", "bool")
-COMMUTATIVE = ("call:min", "call:max", "Add", "Mul", "BitAnd", "BitOr", "BitXor", "Eq", "Ne", "AddWithOverflow", "MulWithOverflow", "AddUnchecked", "MulUnchecked")
-MIRRORED = {"Lt": "Gt", "Gt": "Lt", "Le": "Ge", "Ge": "Le"}
+COMMUTATIVE = ("call:min", "call:max", "call:eq", "call:ne", "Add", "Mul", "BitAnd", "BitOr", "BitXor", "Eq", "Ne", "AddWithOverflow", "MulWithOverflow", "AddUnchecked", "MulUnchecked")
+MIRRORED = {"Lt": "Gt", "Gt": "Lt", "Le": "Ge", "Ge": "Le", "call:lt": "call:gt", "call:gt": "call:lt", "call:le": "call:ge", "call:ge": "call:le"}
 CMP_ALIASES = {"core::cmp::min": "core::cmp::Ord::min", "std::cmp::min": "core::cmp::Ord::min", "core::cmp::max": "core::cmp::Ord::max", "std::cmp::max": "core::cmp::Ord::max", "std::cmp::Ord::min": "core::cmp::Ord::min", "std::cmp::Ord::max": "core::cmp::Ord::max"}
 
 
@@ -710,7 +713,7 @@ class ExprBuilder:
         ds = fn.defs(local)
         full = [d for d in ds if d[0] in ("assign", "call", "yield", "arg")]
         partial = [d for d in ds if d[0] == "partial"]
-        user = fn.locals[local]["user"]
+        user = fn.locals[local]["user"] and not fn.is_new_let(local)
         if local == 0 or partial or len(full) != 1:
             # multiply-defined or partially written: keep as a place, named if possible
             r = ("place", place_to_str(fn, local, []), fn.locals[local]["ty"])
@@ -784,6 +787,15 @@ class ExprBuilder:
             frm = a0.get("place", {}).get("ty") if a0.get("k") in ("copy", "move") else a0.get("ty")
             if to in INT_TYPES and frm in INT_TYPES:
                 return ("cast", "IntToInt", args[0], to)
+        if decl and decl.split("::")[-1] in ("lt", "le", "gt", "ge", "eq", "ne") and ("PartialOrd" in decl or "PartialEq" in decl) and len(args) == 2:
+            # a.le(b) is b.ge(a): written as at the pin
+            last = decl.split("::")[-1]
+            op2, a_, b_ = _canon_binop(self.fn, "call:" + last, args[0], args[1])
+            if (a_, b_) != (args[0], args[1]):
+                args = (a_, b_)
+                new_last = op2.split(":")[1]
+                decl = decl[: -len(last)] + new_last
+                res = (res[: -len(last)] + new_last) if res and res.endswith("::" + last) else res
         e = ("call", decl, res, args, (b, t["span"]["line"], t["dest"]["ty"]), f)
         if self.inline:
             e2 = self.prog.inline_getter(e)
